@@ -143,10 +143,7 @@ fn run_pair(ctx: &mut Ctx, p0: &Pool, p1: &Pool, i: usize, j: usize, level: u8) 
     let directed = p0.directed;
     let (n0, e0) = &p0.graphs[i];
     let (n1, e1) = &p1.graphs[j];
-    if n0 > n1 {
-        ctx.skipped = true;
-        return;
-    }
+    // n0 > n1 is run too: no embedding exists, every answer must be false / empty
     let a0: Abs<u8> = Abs::new(*n0, directed, e0.iter().map(|&(a, b)| (a, b, 0u8)).collect());
     let a1: Abs<u8> = Abs::new(*n1, directed, e1.iter().map(|&(a, b)| (a, b, 0u8)).collect());
     let sub = embeddings(*n0, e0, *n1, e1, directed);
@@ -264,10 +261,10 @@ fn families(a: &Args) -> Vec<Family> {
     let dir4 = || Pool::new(vec![SimpleFam::new(4..=4, true, false)]);
     let dir2 = || Pool::new(vec![SimpleFam::new(0..=2, true, true)]);
     let mut v = vec![
-        pair_family("undirected-le3-loops-pairs", false, und3(), und3(), 1, "every ordered pair of labelled undirected simple graphs with self-loops on <= 3 nodes (n0 <= n1)".into()),
+        pair_family("undirected-le3-loops-pairs", false, und3(), und3(), 1, "every ordered pair of labelled undirected simple graphs with self-loops on <= 3 nodes (either argument may be the larger one)".into()),
         pair_family("undirected-4-loopfree-pairs", false, und4(), und4(), 1, "every ordered pair of labelled undirected loop-free graphs on 4 nodes".into()),
         pair_family("undirected-le3-into-4", false, und3(), und4l(), 0, "every undirected graph with loops on <= 3 nodes against every undirected graph with loops on 4 nodes (subgraph embeddings)".into()),
-        pair_family("directed-le3-loops-pairs", false, dir3(), dir3(), if t { 1 } else { 0 }, "every ordered pair of labelled directed simple graphs with self-loops on <= 3 nodes (n0 <= n1)".into()),
+        pair_family("directed-le3-loops-pairs", false, dir3(), dir3(), if t { 1 } else { 0 }, "every ordered pair of labelled directed simple graphs with self-loops on <= 3 nodes (either argument may be the larger one)".into()),
         pair_family("directed-le2-into-4", false, dir2(), dir4(), 0, "every digraph with loops on <= 2 nodes against every loop-free digraph on 4 nodes".into()),
         weighted_family("undirected-le3-weighted", false, Pool::new(vec![SimpleFam::new(1..=3, false, false)]), 12, "every pair of undirected loop-free graphs on 1..=3 nodes x every node weighting {0,1}^n and edge weighting {0,1}^m of both x 7 predicate pairs (eq, always-true, always-false, <=)".into()),
         weighted_family("directed-le2-loops-weighted", false, Pool::new(vec![SimpleFam::new(1..=2, true, true)]), 12, "every pair of digraphs with loops on 1..=2 nodes x every {0,1} node/edge weighting x 7 predicate pairs".into()),
